@@ -781,7 +781,9 @@ RUN_ENV = {"ASAN_OPTIONS": "detect_leaks=0:abort_on_error=0:exitcode=99"}   # pl
 
 
 def exec_job(ck, hbin, job):
-    out, rc, err = ck.run_bin(hbin, ["solnrun", job_line(job)], timeout=300, env=RUN_ENV)
+    # a planner that stops evaluating its termination condition (seen: LazyLBTRRT with two goal states,
+    # `run LazyLBTRRT len 0 def 7 2 937642 666 3 <0.05> 0`) must not eat the quick tier's budget: no verdict after 45 s
+    out, rc, err = ck.run_bin(hbin, ["solnrun", job_line(job)], timeout=45 if ck.tier == "quick" else 120, env=RUN_ENV)
     return job, out, rc, err
 
 
